@@ -45,6 +45,9 @@ Obs == /\ flows' = SnapFlows
 TIngest == /\ IsEvent("Ingest") /\ ~ev.err
            /\ \E latest \in BOOLEAN : Ingest(ev.r, latest)
            /\ Obs
+\* a record of a multi-record message: the state in between is not observable (the choice is settled by the
+\* snapshot that follows the last record of the message)
+TIngestPart == IsEvent("IngestPart") /\ \E latest \in BOOLEAN : Ingest(ev.r, latest)
 TAdvance == IsEvent("Advance") /\ Advance(ev.d) /\ Obs
 TResetStats == IsEvent("ResetStats") /\ ResetStats(ev.k) /\ Obs
 
@@ -58,6 +61,6 @@ TScan == /\ IsEvent("Scan")
                 /\ res.err = ev.err
          /\ Obs
 
-Next == TReset \/ TIngest \/ TAdvance \/ TResetStats \/ TScan
+Next == TReset \/ TIngest \/ TIngestPart \/ TAdvance \/ TResetStats \/ TScan
 Spec == Init /\ [][Next]_vars
 =============================================================================
